@@ -155,6 +155,8 @@ pub struct ExploreResult {
     pub found: Vec<Found>,
     pub stats: Stats,
     pub states_with_buffer: u64,
+    /// states by number of buffered objects (index 5 = five or more)
+    pub buffered_hist: [u64; 6],
     pub double_replays: u64,
     pub fresh_thread_checks: u64,
     pub level_sizes: Vec<u64>,
@@ -488,6 +490,7 @@ pub fn explore(cfg: &LensCfg, lim: &Limits) -> ExploreResult {
                 if seen.insert(cand.key) {
                     let idx = arena.len() as u32;
                     arena.push(StateRec { parent: cand.parent, op: cand.op, root: 0 });
+                    res.buffered_hist[(cand.summary.buffered as usize).min(5)] += 1;
                     next.push((idx, cand.summary));
                     res.states += 1;
                     if cand.buffer_nonempty {
